@@ -106,16 +106,15 @@ let () = iter_lines (fun line ->
       let n = int_of_string n and maxsteps = int_of_string maxsteps in
       let p = parse_prog src prog and v = parse_vars vars and cs = parse_cmds cmds in
       let count c = List.fold_left (fun a e -> a + List.length e.e_calls) 0 c.trace in
-      let rec go k acc log =
-        if k > maxsteps then (acc, log) else
-        match s_iter_nohalt (nat_of_int k) p v cs with
-        | None -> (acc, log)
-        | Some c ->
-            let m = count c in
-            if m > n then (acc, log)
-            else if m = n then go (k + 1) (show_vars c.wd :: acc) (Some (show_log c.trace))
-            else go (k + 1) acc log in
-      (match go 0 [] None with
+      let lt = label_table p in
+      let rec go k c acc log =
+        let m = count c in
+        if m > n || k > maxsteps then (acc, log) else
+        let (acc, log) = if m = n then (show_vars c.wd :: acc, Some (show_log c.trace)) else (acc, log) in
+        match s_exec p lt c with
+        | Inl c' -> go (k + 1) c' acc log
+        | Inr _ -> (acc, log) in
+      (match go 0 (s_init v cs) [] None with
        | (_, None) -> print_endline "NOCAND"
        | (acc, Some log) -> Printf.printf "CAND\t%s\t%s\n" log (String.concat "&" (List.rev acc)))
   | _ -> print_endline "BADLINE")
